@@ -277,6 +277,24 @@ template <typename T> static void op_matrix(const Case& c, Outcome& o) { o.cls(0
       if (e[cc] != alleq || ne[cc] == alleq || ee[cc] != alle || nee[cc] != anyne) { o.res(e[cc], ee[cc]); o.exp(alleq, alle); o.bad(40 + C * 4 + R, "equal/notEqual(mat,mat[,epsilon]): column verdict is not the conjunction of the element verdicts"); return; } } }
   MXL(2, 2) MXL(2, 3) MXL(2, 4) MXL(3, 2) MXL(3, 3) MXL(3, 4) MXL(4, 2) MXL(4, 3) MXL(4, 4) }
 
+// uaddCarry / usubBorrow / umulExtended / imulExtended: vector overload == scalar overload per component, also when an output object is one of the operands
+template <int L, glm::qualifier Q> static bool carry_one(uint64_t i, uint64_t j, Outcome& o) {
+  typedef glm::vec<L, glm::uint, Q> UV; typedef glm::vec<L, int, Q> IV; UV x, y; glm::uint a[4], b[4]; for (int k = 0; k < L; ++k) { a[k] = pick<glm::uint>(i, k, 0); b[k] = pick<glm::uint>(j, k, 1); x[k] = a[k]; y[k] = b[k]; }
+  UV c(77u), bw(77u), hi(77u), lo(77u); UV s = glm::uaddCarry(x, y, c), d = glm::usubBorrow(x, y, bw); glm::umulExtended(x, y, hi, lo);
+  IV sx(x), sy(y), shi(77), slo(77); glm::imulExtended(sx, sy, shi, slo);
+  UV ax = x, ay = y; UV s1 = glm::uaddCarry(ax, y, ax), s2 = glm::uaddCarry(x, ay, ay);          // carry aliases x / y
+  UV bx = x, by = y; UV d1 = glm::usubBorrow(bx, y, bx), d2 = glm::usubBorrow(x, by, by);
+  UV mx = x, my = y; glm::umulExtended(mx, my, mx, my);
+  for (int k = 0; k < L; ++k) { glm::uint sc = 77, sb = 77, sh = 77, sl = 77; glm::uint ss = glm::uaddCarry(a[k], b[k], sc), sd = glm::usubBorrow(a[k], b[k], sb); glm::umulExtended(a[k], b[k], sh, sl); int ih = 77, il = 77; glm::imulExtended((int)a[k], (int)b[k], ih, il);
+    const char* what = nullptr;
+    if (s[k] != ss || c[k] != sc) what = "uaddCarry(vec)"; else if (d[k] != sd || bw[k] != sb) what = "usubBorrow(vec)"; else if (hi[k] != sh || lo[k] != sl) what = "umulExtended(vec)"; else if (shi[k] != ih || slo[k] != il) what = "imulExtended(vec)";
+    else if (s1[k] != ss || ax[k] != sc || s2[k] != ss || ay[k] != sc) what = "uaddCarry(vec) with the carry aliasing an operand"; else if (d1[k] != sd || bx[k] != sb || d2[k] != sd || by[k] != sb) what = "usubBorrow(vec) with the borrow aliasing an operand";
+    else if (mx[k] != sh || my[k] != sl) what = "umulExtended(vec) with the outputs aliasing the operands";
+    if (what) { char m[160]; std::snprintf(m, sizeof m, "%s: component %d differs from the scalar overload [L=%d, Q=%d]", what, k, L, (int)QN<Q>::id); o.res(s[k], c[k]); o.exp(ss, sc); o.bad(L * 4 + QN<Q>::id, m); return false; } }
+  return true; }
+static void op_carry(const Case& c, Outcome& o) { o.cls(0);
+#define CQ(Q) if (!carry_one<1, Q>(c.w[0], c.w[1], o) || !carry_one<2, Q>(c.w[0], c.w[1], o) || !carry_one<3, Q>(c.w[0], c.w[1], o) || !carry_one<4, Q>(c.w[0], c.w[1], o)) return;
+  CQ(QHIGH) CQ(QLOW) CQ(QMED) }
 template <typename T, int L, glm::qualifier Q> static bool findnsb_one(uint64_t i, uint64_t n, Outcome& o) {
   const int w = sizeof(T) * 8; glm::vec<L, T, Q> v; glm::vec<L, int, Q> c; for (int k = 0; k < L; ++k) { v[k] = pick<T>(i, k, 0); c[k] = 1 + (int)((n + 5 * k) % (w + 1)); }
   glm::vec<L, int, Q> r = glm::findNSB(v, c); for (int k = 0; k < L; ++k) { int s = glm::findNSB(v[k], c[k]); if (r[k] != s) { o.res((uint64_t)(int64_t)r[k], (uint64_t)k); o.exp((uint64_t)(int64_t)s); o.bad(L * 4 + QN<Q>::id, "findNSB(vec, ivec)[i] != findNSB(v[i], n[i])"); return false; } }
@@ -350,6 +368,7 @@ int main(int argc, char** argv) {
 #endif
 #if PART(8)
   reg_int<glm::uint>(E, "uint");
+  { Op& op = E.add("uaddCarry/usubBorrow/umulExtended/imulExtended (vec) == scalar per component, incl. aliased outputs, L=1..4 x Q", op_carry); op.quick = {product("VALUES^2", {D1<glm::uint>(), D1<glm::uint>()})}; }
 #endif
 #if PART(9)
   reg_int<glm::int8>(E, "i8");
